@@ -5,7 +5,7 @@ from __future__ import annotations
 from harness.common import CoqBatch, Names, c_list, c_pair, c_pos, c_nat, c_opt, c_bool
 from harness import pdl
 
-IMPORTS = ["Base", "Engine", "Exec", "SpecDenote", "GraphDef", "CheckLib", "EngineCheck"]
+IMPORTS = ["Base", "Engine", "Exec", "SpecDenote", "SpecWhile", "GraphDef", "CheckLib", "EngineCheck"]
 
 
 def real_input_spec(g):
@@ -41,3 +41,54 @@ def emit_model_checks(batch: CoqBatch, i: int, N: Names, g, run, obs, log_mode="
         batch.add(i, 104, "list_eqb call_eqb", "concat (res_log $res)", pdl.c_log(N, obs["log"]))
     else:
         batch.add(i, 104, "calls_multiset_eqb", "concat (res_log $res)", pdl.c_log(N, obs["log"]))
+
+
+def run_cases(ctx, name, cases, extra=None, shard=160, schedules=None):
+    """cases: list of (g, run_cfg).  For each: run on the implementation, emit MODEL checks, then
+    call extra(i, g, run_cfg, obs, batch, N) -> list of oracle failure strings (Python-level oracle);
+    `extra` may also add SPEC checks (codes < 100) to the batch.  Returns (obs_all, coq result)."""
+    N = Names()
+    batch = CoqBatch(name, IMPORTS, shard=shard)
+    obs_all = {}
+    for i, (g, run_cfg) in enumerate(cases):
+        rank = None
+        if run_cfg.get("runner") == "async":
+            seed = run_cfg.get("sched_seed", 0)
+            import random as _r
+            rr = _r.Random(seed)
+            perm = {}
+            rank = lambda name, perm=perm, rr=rr: perm.setdefault(name, rr.random())  # noqa: E731
+            if run_cfg.get("fresh_rank"):
+                rank = lambda name, rr=rr: rr.random()  # noqa: E731  (a new priority at every arrival)
+        try:
+            obs = pdl.run_real(g, run_cfg, rank=rank)
+        except Exception as e:  # noqa: BLE001
+            import traceback
+            ctx.violation("harness", f"real-side driver crashed: {type(e).__name__}: {e}", case={"graph": g, "run": run_cfg}, trace=traceback.format_exc()[-1500:])
+            continue
+        obs_all[i] = obs
+        if obs["status"] == "raised":
+            if run_cfg.get("expect_raise"):
+                continue
+            ctx.violation("oracle", f"run raised instead of returning a result: {obs['error_repr']}", case={"graph": g, "run": run_cfg})
+            continue
+        define_case(batch, i, N, g, run_cfg)
+        emit_model_checks(batch, i, N, g, run_cfg, obs, log_mode="exact" if run_cfg.get("runner", "sync") == "sync" else "multiset")
+        if extra is not None:
+            for msg in extra(i, g, run_cfg, obs, batch, N) or []:
+                ctx.violation("oracle", msg, case={"graph": g, "run": run_cfg}, observed=obs)
+    res = batch.run()
+    if res["error"]:
+        ctx.violation("harness", res["error"])
+    for (ci, code, mv, real, mexp) in res["failed"]:
+        kind = "oracle" if code < 100 else "correspondence"
+        g, run_cfg = cases[ci]
+        ctx.violation(kind, f"check {code}: implementation {real} vs {'spec' if code < 100 else 'model'} {mv}",
+                      case={"graph": g, "run": run_cfg}, observed=obs_all.get(ci), expr=mexp)
+    return obs_all, res
+
+
+def program_key(g, run_cfg):
+    from harness.common import canon
+    return canon({"n": g["nodes"], "b": g.get("bound"), "e": g.get("entrypoints"), "s": g.get("selected"),
+                  "in": run_cfg["inputs"], "r": run_cfg.get("runner"), "mi": run_cfg.get("max_iterations"), "sel": run_cfg.get("select")})
